@@ -142,3 +142,59 @@ Print Assumptions C16_flags_of_wopts_from_source.
 
 Example ex_toFlags_wopts : toFlags (opts_of_wopts {| w_require := true; w_default := false; w_optional := true; w_disallow_unknown := true |}) = 160.
 Proof. reflexivity. Qed.
+
+(* (G2) thrift/idl.go convertRequireness and the marked-bit decision of thrift/utils.go HandleRequires, translated from the Go source
+   (gen/Gen_thriftreq.v).  C16_HandleRequires_is_rule above speaks about the hand mirror handle_requires_decision; the theorems below
+   state the same about the GENERATED definitions. *)
+From DG Require Import Gen_thriftreq GenThriftreqProofs.
+
+(* convertRequireness on an ordinary field: f.required becomes the IDL requiredness and the ONE call requires.Set(f.id, v) marks the
+   bit exactly when the model says the field is tracked (required / default always, optional iff SetOptionalBitmap) *)
+Theorem C16_convertRequireness_source_is_tracked :
+  forall p f old, (f_req f = 0 \/ f_req f = 1 \/ f_req f = 2) ->
+  convertRequireness (f_req f) (cr_f (f_id f) false false old) (cr_o p)
+    = Some (go_req (f_req f), [(Eff_Set, [f_id f; bitmap_value p (f_req f)])]) /\
+  set_marks (bitmap_value p (f_req f)) = tracked p f.
+Proof. exact convertRequireness_ordinary. Qed.
+Print Assumptions C16_convertRequireness_source_is_tracked.
+
+(* thrift base fields are never tracked; any requiredness outside default / required / optional panics *)
+Theorem C16_convertRequireness_source_base_and_invalid :
+  (forall r id rb sb old o, (r = 0 \/ r = 1 \/ r = 2) -> rb || sb = true ->
+     convertRequireness r (cr_f id rb sb old) o = Some (go_req r, [(Eff_Set, [id; OptionalRequireness])]) /\ set_marks OptionalRequireness = false) /\
+  (forall r f o, r <> 0 -> r <> 1 -> r <> 2 -> convertRequireness r f o = None).
+Proof. split; [exact convertRequireness_base | exact convertRequireness_invalid]. Qed.
+Print Assumptions C16_convertRequireness_source_base_and_invalid.
+
+(* HandleRequires, decision for a marked bit, from the source: for the descriptor field the model describes (hr_f: Required() is the IDL
+   requiredness, DefaultValue() == nil iff there is no parsed default) the block looks up id = 64 i + j and then does exactly what the
+   RULE says - error, skip (shifting the word), or the handler - for every option set, word index, bit index and word content *)
+Theorem C16_HandleRequires_source_is_rule :
+  forall p w f i v j, tracked p f = true -> (f_req f = 0 \/ f_req f = 1 \/ f_req f = 2) ->
+  HandleRequires_marked (w_require w) (w_default w) (w_optional w) i v j (hr_f p f) = marked_result (blk_id i j) v (rule p w f).
+Proof. exact HandleRequires_marked_is_rule. Qed.
+Print Assumptions C16_HandleRequires_source_is_rule.
+
+(* ... the hand mirror is the generated decision (so every theorem above about handle_requires_decision is about the source) *)
+Theorem C16_HandleRequires_source_is_mirror :
+  forall p w f i v j, (f_req f = 0 \/ f_req f = 1 \/ f_req f = 2) ->
+  HandleRequires_marked (w_require w) (w_default w) (w_optional w) i v j (hr_f p f)
+    = marked_result (blk_id i j) v (handle_requires_decision p w f).
+Proof. exact HandleRequires_marked_is_decision. Qed.
+Print Assumptions C16_HandleRequires_source_is_mirror.
+
+(* the id looked up is the one the model's scan reports for that position, and the caller-visible outcome is the rule's *)
+Theorem C16_HandleRequires_source_observed :
+  forall p w f id v, tracked p f = true -> (f_req f = 0 \/ f_req f = 1 \/ f_req f = 2) -> 0 <= id < 65536 ->
+  blk_id (id / 64) (id mod 64) = id /\
+  decode_marked (HandleRequires_marked (w_require w) (w_default w) (w_optional w) (id / 64) v (id mod 64) (hr_f p f))
+    = Some (obs_of_action (rule p w f) id).
+Proof. intros. split; [apply blk_id_of_id; assumption | apply HandleRequires_marked_observed; assumption]. Qed.
+Print Assumptions C16_HandleRequires_source_observed.
+
+Example ex_HandleRequires_source :
+  let p := {| p_opt_bitmap := true; p_use_default := true |} in
+  let f := {| f_id := 65; f_req := 2; f_hasdef := true |} in
+  let w := {| w_require := false; w_default := false; w_optional := false; w_disallow_unknown := false |} in
+  HandleRequires_marked false false false 1 1 1 (hr_f p f) = (Out_fall, 1, [(Eff_FieldById, [65]); (Eff_handler, [])]) /\ rule p w f = AWriteDefault.
+Proof. split; reflexivity. Qed.
